@@ -30,6 +30,15 @@ from ..core.types import Capability
 MAX_EXPRESSION_LENGTH = 10000  # Characters
 MAX_AST_DEPTH = 50  # Nesting levels
 
+class _BooleanNames(ast.NodeTransformer):
+    """Rewrite the bare names true / false to boolean constants."""
+
+    def visit_Name(self, node: ast.Name) -> ast.AST:
+        if node.id in ("true", "false"):
+            return ast.copy_location(ast.Constant(value=node.id == "true"), node)
+        return node
+
+
 class MetabolicPathway(Enum):
     """
     Different metabolic pathways for different substrates.
@@ -440,11 +449,9 @@ class Mitochondria:
         More complex than glycolysis - like the Krebs cycle in
         the mitochondrial matrix.
         """
-        # Normalize Python boolean literals
-        expression = expression.replace('True', '1').replace('False', '0')
-        expression = expression.replace('true', '1').replace('false', '0')
-
-        tree = ast.parse(expression, mode='eval')
+        # Accept lowercase true/false as boolean literals (on the AST, so that
+        # string literals and other identifiers are left alone)
+        tree = _BooleanNames().visit(ast.parse(expression, mode='eval'))
         return bool(self._compute_node(tree.body))
 
     def _oxidative_phosphorylation(self, expression: str) -> Any:
